@@ -154,8 +154,18 @@ class Mutator(ast.NodeTransformer):
         return node
 
 
-def run(cmd, **kw):
-    return subprocess.run(cmd, capture_output=True, text=True, **kw)
+def run(cmd, timeout=None, **kw):
+    """subprocess.run that kills the whole process group on timeout."""
+    import signal
+    p = subprocess.Popen(cmd, stdout=subprocess.PIPE, stderr=subprocess.PIPE,
+                         text=True, start_new_session=True, **kw)
+    try:
+        out, err = p.communicate(timeout=timeout)
+    except subprocess.TimeoutExpired:
+        os.killpg(p.pid, signal.SIGKILL)
+        out, err = p.communicate()
+        return subprocess.CompletedProcess(cmd, 124, out, err + "\nTIMEOUT")
+    return subprocess.CompletedProcess(cmd, p.returncode, out, err)
 
 
 def main():
@@ -213,7 +223,8 @@ def main():
             t0 = time.time()
             r = run(["/venv/bin/python", "-m", "pytest", "-q", "-x", "-p",
                      "no:cacheprovider", "--deselect",
-                     "metomi/isodatetime/tests/test_main.py::test_pipe"], cwd=wt)
+                     "metomi/isodatetime/tests/test_main.py::test_pipe"], cwd=wt,
+                    timeout=180)
             tail = (r.stdout.strip().splitlines() or [""])[-1]
             rec["suite"] = tail
             if " failed" in tail or "error" in tail.lower() or r.returncode not in (0,):
@@ -223,7 +234,11 @@ def main():
             killed = None
             for pid in ORDER:
                 r = run([os.path.join(HERE, "run_check.py"), pid, "--tier",
-                         "quick"], env=env, cwd=HERE)
+                         "quick"], env=env, cwd=HERE, timeout=1200)
+                if r.returncode == 124:
+                    killed = pid
+                    rec["message"] = "check did not finish within 20 min (hang)"
+                    break
                 if r.returncode == 1:
                     killed = pid
                     lines = r.stdout.splitlines()
